@@ -23,7 +23,7 @@ func init() {
 		Title: "Diagnostics never disclose credentials",
 		Level: "model_checking",
 		Rule: "self-composition: for every CONNECT shape (every presence subset of the 12 non-credential top-level fields x will in {absent, minimal, full}; API-built and decoded from its own frame) and every credential length in {1,2,9} (3,4,5,20,32,33,64,65,255,256,4096,65535 on the bases), the packet is instantiated with 17 kinds of content of that length for the user name (reference password), for the password (reference user name) and for both alike: all-a, all-b, the client id, the literal stars, a format-verb string, the will topic, a user-property value, two-byte runes, three-byte runes (same byte length, fewer characters), bytes 00/ff, ill-formed UTF-8 (lone lead and continuation bytes, ff only, a rune cut off at the end), control and escape characters, quotes and braces, digits, blanks. " +
-			"Dump output and String() must be identical for all 49 instances. Histories: every sequence of exactly 3 (thorough 4) calls over 17 operations (user name of 4/9/40 bytes or empty, password of 4/9 bytes or nil, client id, auth method/data, user property, will, protocol version, String+Dump, WriteTo) is run with every assignment of two credential contents (differing in every byte) to its credential-setting calls; every rendering after every step must agree with the reference run. The operations include UnmarshalBinary of a CONNECT body without and with credentials into the packet. Recurring credentials: a CONNECT whose client id / auth method / will topic / will payload / user property (every subset) contain the credential text, rendered with that credential and with one that occurs nowhere. Magic values: auth method and client id set to PLAIN, SCRAM-SHA-1 and every token-like string constant of the tree under test. Nothing else is required (dependence on emptiness and length is allowed). distinct_nontrivial = distinct (shape, length, content pair) instances rendered.",
+			"Dump output and String() must be identical for all 49 instances. Histories: every sequence of exactly 3 (thorough 4) calls over 17 operations (user name of 4/9/40 bytes or empty, password of 4/9 bytes or nil, client id, auth method/data, user property, will, protocol version, String+Dump, WriteTo) is run with every assignment of two credential contents (differing in every byte) to its credential-setting calls; every rendering after every step must agree with the reference run. The operations include UnmarshalBinary of a CONNECT body without and with credentials into the packet. Recurring credentials: a CONNECT whose client id / auth method / will topic / will payload / user property (every subset) contain the credential text, rendered with that credential and with one that occurs nowhere. Magic values: auth method, client id, will topic (will attached before and after the credentials), will response topic/content type and a user property set to PLAIN, SCRAM-SHA-1, placeholder syntaxes (%u, ${username}, ...) and every string constant that is new in the tree under test. Credential formats: twenty secrets as they really look (JSON web tokens differing in exp only, bearer/basic headers, URL user info, PEM, UUID, hex and base64 keys, cloud access keys, a shared access signature) as user name, password or both against all-a credentials of the same length. Nothing else is required (dependence on emptiness and length is allowed). distinct_nontrivial = distinct (shape, length, content pair) instances rendered.",
 		Assumptions: []string{"only Dump and String are in scope (not %#v of the struct)", "credential contents come from 10 leak-provoking kinds; the renderer is expected to never look at content"},
 		Run:         runC18,
 		Replay:      replayC18,
